@@ -65,7 +65,13 @@ type scenario struct {
 	// included), with that call failing with EIO; faultAt is the ordinal of the current run
 	FaultEnum bool
 	faultAt   int
-	Why       string
+	// FaultMode: "" a failing call has no effect and reports EIO; "short" a failing write stores half of its
+	// bytes first (ENOSPC); "sticky" after the first failure every later create/write of that process fails too
+	FaultMode string
+	// allVisible: every filesystem call is a scheduling point (the visibility reduction is switched off
+	// because the code under test turned out to read another process's temporary or lock files)
+	allVisible bool
+	Why        string
 	InitAuto  bool
 	// MixedHash: handles are opened with different hash ids (the open-on-clone check would need to guess one)
 	MixedHash bool
@@ -90,6 +96,7 @@ func (sc *scenario) build(prop string) (*mc.Scenario, error) {
 	build := func() *mc.World {
 		w := mc.NewWorld(dir)
 		w.Restore(snap)
+		w.AllVisible = sc.allVisible
 		rt.E = w
 		ms := &mons{}
 		switch prop {
@@ -147,6 +154,8 @@ func (sc *scenario) build(prop string) (*mc.Scenario, error) {
 				}
 			}
 			p.OpCount = 0
+			p.FaultShort = sc.FaultMode == "short"
+			p.FaultSticky = sc.FaultMode == "sticky"
 			if sc.FaultEnum && p.ID == 0 {
 				p.FaultAt = sc.faultAt
 			}
